@@ -32,7 +32,7 @@ FAULTS = {
                    # malformed escapes in character literals (D24)
                    "addi x1, x1, '\\x'", "X9 = '\\'", "li x1, '\\u12'", "dw '\\N{nope}'"],
     'range-align': ['align 0'],
-    'error-directive': ['error stop here', 'error unsupported configuration: 42'],
+    'error-directive': ['error stop here', 'error unsupported configuration: 42', 'error bad \\x escape in the message', 'error ends with a backslash \\'],
 }
 DATA_CLASSES = {'range-data'}
 
